@@ -30,6 +30,8 @@ real library by the document scenario (valid documents with injected defects of 
 import AutosarVerif.Lemmas.ParserMonad
 import AutosarVerif.Lemmas.Parser
 import AutosarVerif.Model.ToyEnv
+import AutosarVerif.Lemmas.ParseSound
+import AutosarVerif.Lemmas.ParseSoundEx
 
 namespace AV.C08
 open AV.PM
@@ -91,5 +93,37 @@ example : (match (pLoop toySpec toyEnv 40 rootHdr {} true st0).1 with
 -- the content built by the lenient run: A(e1) = "seven" and B(e2) = "hi"
 example : (match (pLoop toySpec toyEnv 40 rootHdr {} false st0).1 with
     | .ok k => decide (k.ids = [1, 2]) | .error _ => false) = true := by decide +kernel
+
+
+/-! ### added in the third session: statements proved in the lemma files, restated here by name
+(`type_of%` keeps the statement identical to the lemma; the signature is quoted in the comment) -/
+
+/-- **strict validation has no holes (model level)**: if STRICT loading accepts a buffer, the tree it returns is valid in the file's version (`TreeValid`, stated on the tree alone): every element is found by the version's lookup in its parent's type with the recorded type, no two adjacent alternatives of an exclusive choice, no repeated single-occurrence element, SHORT-NAME present where the type is named in the version, every attribute known to the type, allowed in the version, with a value the specification accepts (length, pattern, enumeration item in the version, number), required attributes present, character data accepted by the specification; and the buffer was read completely
+`theorem runParser_sound (buf : Bytes) (nid nmAutosar : Nat) (h : Hdr) (k : Items) (st : PState) (hr : runParser S V true buf nid nmAutosar = (.ok (h, k), st)) : TreeValid S V nmAutosar st.ver h k ∧ st.lx.rest = [] ∧ st.lx.deferred = none` -/
+theorem C08_strict_acceptance_implies_validity : type_of% @AV.ParseSound.runParser_sound := @AV.ParseSound.runParser_sound
+
+/-- `theorem runParser_sound_lenient (buf : Bytes) (nid nmAutosar : Nat) (h : Hdr) (k : Items) (st : PState) (hr : runParser S V false buf nid nmAutosar = (.ok (h, k), st)) (hw : st.warnings = []) : TreeValid S V nmAutosar st.ver h k ∧ st.lx.rest = [] ∧ st.lx.deferred = none` -/
+theorem C08_lenient_without_warnings_implies_validity : type_of% @AV.ParseSound.runParser_sound_lenient := @AV.ParseSound.runParser_sound_lenient
+
+/-- `theorem accepted_elements_known (h' : Hdr) (k' : Items) (hn : Node (.elem h k .nil) h' k') : ∀ c ∈ childs k', ∃ idx, S.findSub h'.ety.typ c.name st.ver = some (c.ety, idx)` -/
+theorem C08_accepted_elements_known_in_version : type_of% @AV.ParseSound.accepted_elements_known := @AV.ParseSound.accepted_elements_known
+
+/-- `theorem accepted_no_choice_conflict (h' : Hdr) (k' : Items) (hn : Node (.elem h k .nil) h' k') (c1 c2 : Hdr) (ha : Adjacent k' c1 c2) : ∃ i1 i2, S.findSub h'.ety.typ c1.name st.ver = some (c1.ety, i1) ∧ S.findSub h'.ety.typ c2.name st.ver = some (c2.ety, i2) ∧ (i1 = [] ∨ i1 = i2 ∨ S.mode (S.commonGroup h'.ety.typ i1 i2) ≠ .choice)` -/
+theorem C08_accepted_no_choice_conflict : type_of% @AV.ParseSound.accepted_no_choice_conflict := @AV.ParseSound.accepted_no_choice_conflict
+
+/-- `theorem accepted_no_repeat (h' : Hdr) (k' : Items) (hn : Node (.elem h k .nil) h' k') (l1 : List Hdr) (c : Hdr) (l2 : List Hdr) (hc : childs k' = l1 ++ c :: l2) (hrep : c.name ∈ l1.map (·.name)) : ∃ idx, S.findSub h'.ety.typ c.name st.ver = some (c.ety, idx) ∧ ∀ md, S.containerMode h'.ety.typ idx = some md → (md = .sequence ∨ md = .choice) → ∀ mu, S.subMult h'.ety.typ idx = some mu → mu = .any` -/
+theorem C08_accepted_no_repeated_single_occurrence : type_of% @AV.ParseSound.accepted_no_repeat := @AV.ParseSound.accepted_no_repeat
+
+/-- `theorem accepted_short_name (h' : Hdr) (k' : Items) (hn : Node (.elem h k .nil) h' k') (hnamed : S.isNamedIn h'.ety.typ st.ver = true) : hasSN S k' = true` -/
+theorem C08_accepted_short_name_present : type_of% @AV.ParseSound.accepted_short_name := @AV.ParseSound.accepted_short_name
+
+/-- `theorem accepted_attributes (h' : Hdr) (k' : Items) (hn : Node k h' k') : AttrsValid S V st.ver h'.ety.typ h'.attrs` -/
+theorem C08_accepted_attributes_valid : type_of% @AV.ParseSound.accepted_attributes := @AV.ParseSound.accepted_attributes
+
+/-- `theorem accepted_values (h' : Hdr) (k' : Items) (hn : Node (.elem h k .nil) h' k') : ∀ c ∈ texts k', ∃ spec, S.chardataSpec h'.ety.typ = some spec ∧ checkValue V c spec st.ver = true` -/
+theorem C08_accepted_values_valid : type_of% @AV.ParseSound.accepted_values := @AV.ParseSound.accepted_values
+
+/-- `theorem accepted_no_trailing_data : st.lx.rest = [] ∧ st.lx.deferred = none` -/
+theorem C08_accepted_no_data_after_root : type_of% @AV.ParseSound.accepted_no_trailing_data := @AV.ParseSound.accepted_no_trailing_data
 
 end AV.C08
